@@ -155,4 +155,89 @@ theorem cStmts_ret (lv : Nat) (body : Stmts) (lb : Nat) (hg : cgStmts lv body = 
       refine Ret.bind2 (Q := fun r => r ≠ []) ?_ (fun b hb => Ret.pure (loneJump_append_ne ha.1 hb))
       exact Ret.bind2 (cStmt_ret lv s2 _ hg.2.1) (fun a2 ha2 => Ret.bind (fun b2 => Ret.pure (by simp [ha2.1])))
 
+theorem cStmts_cons_ne (lv : Nat) (st : Stmt) (r : Stmts) (lb : Nat) (hg : cgStmt lv st = true) :
+    Ret (fun x => x ≠ []) (cStmts [] lb (.cons st r)) := by
+  simp only [cStmts]
+  exact Ret.bind2 (cStmt_ret lv st lb hg) (fun a ha => Ret.bind (fun b => Ret.pure (by simp [ha.1])))
+
+/-- behind a `return` / `end` / `hold` / `break` / `continue` / `break_loop` / `jump` control does not go on -/
+theorem ends_items {st : Stmt} (he : endsStmt st = true) {lb : Nat} {s : St} {items : List LItem} {s' : St}
+    (h : cStmt [] lb st s = .ok (items, s')) : falls items = false := by
+  have hop : ∀ (nm : String), Gen.opsEndFlow.contains nm = true → ∀ {s : St} {items : List LItem} {s' : St},
+      opStmt nm [] s = .ok (items, s') → falls items = false := by
+    intro nm hnm s items s' h
+    simp only [opStmt, bind_ok, pure_ok] at h
+    obtain ⟨o, s1, h1, h2⟩ := h
+    simp only [Prod.mk.injEq] at h2
+    obtain ⟨rfl, _⟩ := h2
+    obtain ⟨rfl, _⟩ := genOp_spec h1
+    show (!(Gen.opsEndFlow.contains nm)) = false
+    rw [hnm]; rfl
+  have hj : ∀ (l : Option Nat) {s : St} {j : LItem} {s' : St}, genJump l s = .ok (j, s') → falls [j] = false := by
+    intro l s j s' h
+    obtain ⟨rfl, _⟩ := genJump_spec h
+    show (!(Gen.opsEndFlow.contains Gen.op_jump)) = false
+    decide
+  cases st with
+  | ret => simp only [cStmt] at h; exact hop _ (by decide) h
+  | end_ => simp only [cStmt] at h; exact hop _ (by decide) h
+  | hold => simp only [cStmt] at h; exact hop _ (by decide) h
+  | brk =>
+    simp only [cStmt, brkStmt, bind_ok, getSt_ok] at h
+    obtain ⟨s0, s1, h1, h2⟩ := h
+    simp only [Prod.mk.injEq] at h1
+    obtain ⟨rfl, rfl⟩ := h1
+    cases hc : s1.cases with
+    | nil => rw [hc] at h2; simp [fail_ok] at h2
+    | cons e rest =>
+      rw [hc] at h2
+      simp only [bind_ok, pure_ok] at h2
+      obtain ⟨jj, s2, h3, h4⟩ := h2
+      simp only [Prod.mk.injEq] at h4
+      obtain ⟨rfl, _⟩ := h4
+      exact hj _ h3
+  | cont =>
+    simp only [cStmt, contStmt, bind_ok, getSt_ok] at h
+    obtain ⟨s0, s1, h1, h2⟩ := h
+    simp only [Prod.mk.injEq] at h1
+    obtain ⟨rfl, rfl⟩ := h1
+    cases hc : s1.loops with
+    | nil => rw [hc] at h2; simp [fail_ok] at h2
+    | cons e rest =>
+      rw [hc] at h2
+      simp only [bind_ok, pure_ok] at h2
+      obtain ⟨jj, s2, h3, h4⟩ := h2
+      simp only [Prod.mk.injEq] at h4
+      obtain ⟨rfl, _⟩ := h4
+      exact hj _ h3
+  | brkLoop =>
+    simp only [cStmt, brkLoopStmt, bind_ok, getSt_ok] at h
+    obtain ⟨s0, s1, h1, h2⟩ := h
+    simp only [Prod.mk.injEq] at h1
+    obtain ⟨rfl, rfl⟩ := h1
+    cases hc : s1.loops with
+    | nil => rw [hc] at h2; simp [fail_ok] at h2
+    | cons e rest =>
+      rw [hc] at h2
+      simp only [bind_ok, pure_ok] at h2
+      obtain ⟨jj, s2, h3, h4⟩ := h2
+      simp only [Prod.mk.injEq] at h4
+      obtain ⟨rfl, _⟩ := h4
+      exact hj _ h3
+  | jump n =>
+    simp only [cStmt, jumpStmt, bind_ok, pure_ok] at h
+    obtain ⟨id, s1, h1, jj, s2, h2, h3⟩ := h
+    simp only [Prod.mk.injEq] at h3
+    obtain ⟨rfl, _⟩ := h3
+    exact hj _ h2
+  | _ => simp [endsStmt] at he
+
+theorem loneExit_ends : ∀ (body : Stmts), loneExit body = true → endsFlowStmts body = true
+  | .nil, h => by simp [loneExit] at h
+  | .cons s .nil, h => by
+    simp only [loneExit] at h
+    simp only [endsFlowStmts]
+    cases s <;> simp_all [isExit, endsStmt]
+  | .cons s (.cons s2 r), h => by simp [loneExit] at h
+
 end ESV.Comp
